@@ -505,26 +505,32 @@ func (t *Target) gnmiUpdate(n *pb.Notification) (*ctree.Leaf, error) {
 		suffix = nil
 	}
 	path := joinPrefixAndPath(n.Prefix, suffix)
+	if len(path) == 0 {
+		return nil, errors.New("update with an empty path")
+	}
 	if path[0] == metadata.Root {
+		if len(path) < 2 {
+			return nil, fmt.Errorf("invalid metadata path %q", path)
+		}
 		realData = false
 		u := n.Update[0]
 		switch path[1] {
 		case metadata.Sync:
 			var ok bool
-			tv, ok := u.Val.Value.(*pb.TypedValue_BoolVal)
+			tv, ok := u.GetVal().GetValue().(*pb.TypedValue_BoolVal)
 			if !ok {
 				return nil, fmt.Errorf("%v : has value %v of type %T, expected boolean", metadata.Path(metadata.Sync), u.Val, u.Val)
 			}
 			t.sync.Store(tv.BoolVal)
 			t.meta.SetBool(metadata.Sync, tv.BoolVal)
 		case metadata.Connected:
-			tv, ok := u.Val.Value.(*pb.TypedValue_BoolVal)
+			tv, ok := u.GetVal().GetValue().(*pb.TypedValue_BoolVal)
 			if !ok {
 				return nil, fmt.Errorf("%v : has value %v of type %T, expected boolean", metadata.Path(metadata.Connected), u.Val, u.Val)
 			}
 			t.meta.SetBool(metadata.Connected, tv.BoolVal)
 		case metadata.ConnectedAddr, metadata.ConnectError:
-			tv, ok := u.Val.Value.(*pb.TypedValue_StringVal)
+			tv, ok := u.GetVal().GetValue().(*pb.TypedValue_StringVal)
 			if !ok {
 				return nil, fmt.Errorf("%v : has value %v of type %T, expected string", metadata.Path(path[1]), u.Val, u.Val)
 			}
@@ -631,7 +637,10 @@ func toDeleteNotification(n *pb.Notification, timestamp int64) *pb.Notification 
 
 func (t *Target) gnmiRemove(n *pb.Notification) []*ctree.Leaf {
 	path := joinPrefixAndPath(n.Prefix, n.Delete[0])
-	if path[0] == metadata.Root {
+	if len(path) == 0 {
+		return nil
+	}
+	if path[0] == metadata.Root && len(path) > 1 {
 		t.meta.ResetEntry(path[1])
 	}
 	var leaves []*ctree.Leaf
@@ -639,13 +648,19 @@ func (t *Target) gnmiRemove(n *pb.Notification) []*ctree.Leaf {
 	// AddCount when they are added, so only those are counted when removed.
 	var deleted int64
 	f := func(v interface{}) {
-		d := v.(*pb.Notification)
+		d, ok := v.(*pb.Notification)
+		if !ok {
+			return
+		}
 		if !isMetaNotification(d) {
 			deleted++
 		}
 		leaves = append(leaves, ctree.DetachedLeaf(toDeleteNotification(d, n.GetTimestamp())))
 	}
-	t.t.WalkDeleted(path, func(v interface{}) bool { return v.(*pb.Notification).GetTimestamp() < n.GetTimestamp() }, f)
+	t.t.WalkDeleted(path, func(v interface{}) bool {
+		d, ok := v.(*pb.Notification)
+		return ok && d.GetTimestamp() < n.GetTimestamp()
+	}, f)
 	if len(leaves) == 0 {
 		return nil
 	}
@@ -789,7 +804,9 @@ func joinPrefixAndPath(pr, ph *pb.Path) []string {
 	p := path.ToStrings(pr, true)
 	p = append(p, path.ToStrings(ph, false)...)
 	// remove the prepended target name
-	p = p[1:]
+	if len(p) > 0 {
+		p = p[1:]
+	}
 	return p
 }
 
